@@ -18,6 +18,7 @@ import (
 	"strings"
 	"time"
 
+	"github.com/KevoDB/kevo/pkg/config"
 	"github.com/KevoDB/kevo/pkg/engine"
 	"github.com/KevoDB/kevo/pkg/verifhook"
 	"github.com/KevoDB/kevo/pkg/wal"
@@ -64,7 +65,10 @@ func runC01(c *Case, out func(string)) {
 	defer os.RemoveAll(dir)
 	memsize, _ := strconv.ParseInt(hdrVal(c.Hdr, "memsize", "4096"), 10, 64)
 	maxmem, _ := strconv.Atoi(hdrVal(c.Hdr, "maxmem", "1000"))
-	if err := writeManifest(dir, memsize, maxmem, nil); err != nil {
+	// sync=none|batch|immediate: how long records stay in the log's write buffer (no observable
+	// difference for a program without crashes: the model has no such parameter)
+	smode := hdrVal(c.Hdr, "sync", "immediate")
+	if err := writeManifest(dir, memsize, maxmem, func(cf *config.Config) { cf.WALSyncMode = syncMode(smode) }); err != nil {
 		out("IMPL-ERROR manifest " + err.Error())
 		return
 	}
@@ -401,7 +405,7 @@ func genBops(w *bufio.Writer, r *rand.Rand, n, nkeys int) {
 
 func genProgram(w *bufio.Writer, r *rand.Rand, id string, nops int, reopenW int) {
 	memsize := []int{120, 200, 400, 1000, 4096, 100000}[r.Intn(6)]
-	fmt.Fprintf(w, "case %s memsize=%d maxmem=1000\n", id, memsize)
+	fmt.Fprintf(w, "case %s memsize=%d maxmem=1000 sync=%s\n", id, memsize, []string{"immediate", "immediate", "none", "batch"}[r.Intn(4)])
 	nkeys := 2 + r.Intn(5)
 	for i := 0; i < nops; i++ {
 		if r.Intn(25) == 0 {
@@ -446,9 +450,48 @@ func genProgram(w *bufio.Writer, r *rand.Rand, id string, nops int, reopenW int)
 	fmt.Fprintf(w, "end\n")
 }
 
+// records waiting in the log's write buffer (sync none / batch), then a transaction or batch
+// that is larger than the buffer (64 KB), more writes, a clean close and reopen
+func genBigBatch(w *bufio.Writer, r *rand.Rand, id string) {
+	fmt.Fprintf(w, "case %s memsize=10000000 maxmem=1000 sync=%s\n", id, []string{"none", "batch", "none", "immediate"}[r.Intn(4)])
+	nkeys := 4 + r.Intn(4)
+	small := func() {
+		for k := 2 + r.Intn(6); k > 0; k-- {
+			if r.Intn(5) == 0 {
+				fmt.Fprintf(w, "del %s\n", mkTok(genKey(r, nkeys)))
+			} else {
+				fmt.Fprintf(w, "put %s %s\n", mkTok(genKey(r, nkeys)), mkTok([]byte(fmt.Sprintf("s%d", r.Intn(1000)))))
+			}
+		}
+	}
+	small()
+	for rounds := 1 + r.Intn(2); rounds > 0; rounds-- {
+		what := []string{"commit", "batch"}[r.Intn(2)]
+		if r.Intn(2) == 0 {
+			fmt.Fprintf(w, "%s 2\np %s @%d:%d\np %s %s\n", what, mkTok(genKey(r, nkeys)), 66000+r.Intn(60000), r.Intn(1000), mkTok(genKey(r, nkeys)), mkTok([]byte("x")))
+		} else {
+			n := 8 + r.Intn(4)
+			fmt.Fprintf(w, "%s %d\n", what, n)
+			for i := 0; i < n; i++ {
+				fmt.Fprintf(w, "p %s @%d:%d\n", mkTok([]byte(fmt.Sprintf("big%02d", i))), 8500+r.Intn(3000), r.Intn(1000))
+			}
+		}
+		small()
+	}
+	fmt.Fprintf(w, "reopen\n")
+	for k := 0; k < nkeys+1; k++ {
+		fmt.Fprintf(w, "get %s\n", mkTok(genKey(r, k+1)))
+	}
+	fmt.Fprintf(w, "get %s\nend\n", mkTok([]byte("big03")))
+}
+
 func genC01(w *bufio.Writer, seed int64, n int, tier string) {
 	r := rand.New(rand.NewSource(seed*104729 + 1))
 	for ci := 0; ci < n; ci++ {
+		if ci%12 == 7 {
+			genBigBatch(w, r, fmt.Sprintf("c01-%d-%d", seed, ci))
+			continue
+		}
 		nops := 5 + r.Intn(60)
 		if tier == "thorough" && ci%50 == 0 {
 			nops = 400 + r.Intn(600)
